@@ -373,20 +373,6 @@ Proof. intros gs own es layers W H. apply wseq_WalkSeq in W. exact (split_layers
 Theorem walk_WalkSeq : forall ev t, wf_names_forest t = true -> WalkSeq (walk ev t).
 Proof. intros. apply wseq_WalkSeq. apply walk_wseq. assumption. Qed.
 
-(* all four clauses of LayersOk *)
-Theorem split_layers_ok : forall gs own es layers,
-  NoDup (List.concat gs) -> WalkSeq es -> (forall e, In e es -> e_kind e <> KLink) ->
-  (forall e, In e es -> is_dir e = true -> own (e_path e) = None) ->
-  split_layers gs own es = Ok layers -> LayersOk gs own es layers.
-Proof.
-  intros gs own es layers Hnd W Hk Hd H. destruct (split_each_file_once_spec gs own es layers Hnd H) as [Hl [Hf _]].
-  split; [| split; [| split]].
-  - exact (split_flatten_spec gs own es layers W Hk Hd H).
-  - exact Hf.
-  - exact (split_wellformed_spec gs own es layers W H).
-  - exact Hl.
-Qed.
-
 (* without the hypothesis on directories the equation fails: a directory owned
    by one package and a file in it owned by another, with different mtimes *)
 Definition w_dir (p : path) (t : Z) : entry :=
